@@ -43,6 +43,9 @@ type sockState struct {
 	openedBy  int
 	readers   int
 	owner     string
+	// family: the network string the socket was opened with ("udp" on the wildcard address is a
+	// dual-stack socket: it also receives datagrams that arrive over IPv6; "udp4" does not)
+	family string
 }
 
 type datagram struct {
@@ -186,6 +189,13 @@ func (n *Network) DeliverUDP(src, dst string, data []byte) bool {
 		if s.closed || s.proto != "udp" || s.localPort != dport {
 			continue
 		}
+		if from != nil && from.IP.To4() == nil {
+			// a datagram that arrives over IPv6: only a dual-stack socket (opened as "udp" / "udp6" on the
+			// wildcard address) receives it
+			if s.family == "udp4" || (s.family == "" && s.peer != "") || !(s.localIP == nil || s.localIP.IsUnspecified()) {
+				continue
+			}
+		}
 		if s.peer != "" {
 			if s.peer == src {
 				exact = append(exact, s)
@@ -241,7 +251,11 @@ func splitHostPort(a string) (string, int) {
 
 func udpAddr(a string) *net.UDPAddr {
 	h, p := splitHostPort(a)
-	return &net.UDPAddr{IP: net.ParseIP(h).To4(), Port: p}
+	ip := net.ParseIP(h)
+	if v4 := ip.To4(); v4 != nil {
+		ip = v4
+	}
+	return &net.UDPAddr{IP: ip, Port: p}
 }
 
 // ---- UDP ---------------------------------------------------------------------------------------
@@ -269,6 +283,7 @@ func ListenUDP(network string, laddr *net.UDPAddr) (*UDPConn, error) {
 		return nil, err
 	}
 	s.listening = true
+	s.family = network
 	e.Net.acqrel(s)
 	e.note(e.cur, "listen-ok")
 	return &UDPConn{s: s, n: e.Net}, nil
